@@ -86,46 +86,58 @@ def freezeMap (dom : List String) (p : Props String) : Std.HashMap String String
 
 def ofMap (hm : Std.HashMap String String) : Props String := fun x => hm[x]?
 
-/-- ops on one element: graph node properties `p0` and the element's cached name `nm` -/
-def runOps (dom : List String) (T : KindTable) (E : ElemClass) (p0 : Props String) (nm : Json) : List Json → List Json
+/-- an operation may name the handle it goes through as a trailing number (`["get", k, 2]`; none: handle 0) -/
+def splitHandle (op : Json) : Json × Nat :=
+  match op with
+  | .arr xs =>
+    match xs.back? with
+    | some (.num n) => (.arr xs.pop, n.mantissa.toNat)
+    | _ => (op, 0)
+  | _ => (op, 0)
+
+/-- ops on one element through several handles: graph node properties `p0` (the one state all handles share) and every
+handle's cached name `nms` (the only state a handle owns) -/
+def runOps (dom : List String) (T : KindTable) (E : ElemClass) (p0 : Props String) (nms : Array Json) : List Json → List Json
   | [] => []
-  | op :: rest =>
+  | op0 :: rest =>
     let hm := freezeMap dom p0
     let p := ofMap hm
+    let (op, h) := splitHandle op0
+    let nm := nms.getD h .null
     match op with
     | .arr #[.str "set", .str k, v] =>
       match valOfJson v with
-      | some x => .str "ok" :: runOps dom T E (setProperty concrete T freshFields p k x) nm rest
-      | none => .str "bad-value" :: runOps dom T E p nm rest
+      | some x => .str "ok" :: runOps dom T E (setProperty concrete T freshFields p k x) nms rest
+      | none => .str "bad-value" :: runOps dom T E p nms rest
     | .arr #[.str "setnone", .str k] =>
       match setPropertyOpt concrete T E freshFields p k none with
-      | .ok p' => .str "ok" :: runOps dom T E p' nm rest
-      | .error e => errJ e :: runOps dom T E p nm rest
+      | .ok p' => .str "ok" :: runOps dom T E p' nms rest
+      | .error e => errJ e :: runOps dom T E p nms rest
     | .arr #[.str "setprops", .arr kvs] =>
       -- [[k, v|null], ...]
       let kw := kvs.toList.filterMap fun kv => match kv with
         | .arr #[.str k, v] => some (k, valOfJson v)
         | _ => none
       match setProperties concrete T freshFields p kw with
-      | .ok p' => .str "ok" :: runOps dom T E p' nm rest
-      | .error e => errJ e :: runOps dom T E p nm rest
+      | .ok p' => .str "ok" :: runOps dom T E p' nms rest
+      | .error e => errJ e :: runOps dom T E p nms rest
     | .arr #[.str "attrset", .str a, v] =>
       match E.routes.find? (fun r => r.attr == a) with
-      | none => .str "no-route" :: runOps dom T E p nm rest
+      | none => .str "no-route" :: runOps dom T E p nms rest
       | some r =>
         let res := attrAssign concrete T E wrapNoneVal freshFields p r (valOfJson v)
         if r.get == GetForm.cached then
-          -- the name setter caches the value before or after the write, as the table says
+          -- the name setter caches the value (in the handle it is called on) before or after the write, as the table says
           match res with
-          | .ok p' => .str "ok" :: runOps dom T E p' v rest
-          | .error e => errJ e :: runOps dom T E p (if r.cacheAfterWrite || r.onValue == OnValue.none then nm else v) rest
+          | .ok p' => .str "ok" :: runOps dom T E p' (nms.setIfInBounds h v) rest
+          | .error e => errJ e :: runOps dom T E p (if r.cacheAfterWrite || r.onValue == OnValue.none then nms else nms.setIfInBounds h v) rest
         else
           match res with
-          | .ok p' => .str "ok" :: runOps dom T E p' nm rest
-          | .error e => errJ e :: runOps dom T E p nm rest
+          | .ok p' => .str "ok" :: runOps dom T E p' nms rest
+          | .error e => errJ e :: runOps dom T E p nms rest
     | .arr #[.str "attrget", .str a] =>
       match E.routes.find? (fun r => r.attr == a) with
-      | none => .str "no-route" :: runOps dom T E p nm rest
+      | none => .str "no-route" :: runOps dom T E p nms rest
       | some r =>
         (match r.get with
          | .cached => nm
@@ -135,13 +147,13 @@ def runOps (dom : List String) (T : KindTable) (E : ElemClass) (p0 : Props Strin
            | .ok (some (.jdata _ t)) => .arr #[.str "data", .str t]
            | .ok (some v) => jsonOfVal v
            | .ok none => .null
-           | .error e => errJ e) :: runOps dom T E p nm rest
+           | .error e => errJ e) :: runOps dom T E p nms rest
     | .arr #[.str "unset", .str k] =>
       match unsetProperty p k with
-      | .ok p' => .str "ok" :: runOps dom T E p' nm rest
-      | .error e => errJ e :: runOps dom T E p nm rest
-    | .arr #[.str "get", .str k] => getReply T p k :: runOps dom T E p nm rest
-    | _ => .str "bad-op" :: runOps dom T E p nm rest
+      | .ok p' => .str "ok" :: runOps dom T E p' nms rest
+      | .error e => errJ e :: runOps dom T E p nms rest
+    | .arr #[.str "get", .str k] => getReply T p k :: runOps dom T E p nms rest
+    | _ => .str "bad-op" :: runOps dom T E p nms rest
 
 def propsOfJson (kvs : Std.TreeMap.Raw String Json compare) : Props String :=
   kvs.foldl (fun acc g v => match v with | .str x => acc.set g x | _ => acc) Props.empty
@@ -171,6 +183,14 @@ def handle (j : Json) : Json :=
     match treeOfJson t with
     | some s => ok (Json.mkObj [("back", exc ((graphRoundtrip (P := String) concrete s).map jsonOfTree))])
     | none => err "bad-args"
+  | .arr #[.str "grapha", t] =>
+    -- the tree written once, the rebuild started at every element of it: [[id, back], ...] in pre-order
+    match treeOfJson t with
+    | some s =>
+      match graphAt (P := String) concrete s with
+      | .error e => ok (errJ e)
+      | .ok rs => ok (.arr (rs.map fun r => Json.arr #[.str (r.1.nodeId.getD ""), exc (r.2.map jsonOfTree)]).toArray)
+    | none => err "bad-args"
   | .arr #[.str "graphx", t, ps] =>
     -- the graph path below a parent that is there (`["present", id, class]`) or is not (`["missing", id]`)
     match treeOfJson t with
@@ -193,20 +213,24 @@ def handle (j : Json) : Json :=
     -- the element's graph node as the store holds it: {graph property: string}; element class = base class of the kind
     let p := propsOfJson kvs
     let nm : Json := match kvs.get? "Name" with | some (.str s) => .arr #[.str "s", .str s] | _ => .null
-    ok (.arr (runOps (domOf (tableOf kind) kvs) (tableOf kind) (baseClassOf kind) p nm ops.toList).toArray)
+    ok (.arr (runOps (domOf (tableOf kind) kvs) (tableOf kind) (baseClassOf kind) p #[nm] ops.toList).toArray)
   | .arr #[.str "elemc", .str cls, .obj kvs, .arr ops, nm0] =>
     -- with the element's cached name given (a handle whose cached name is out of step with the graph)
     match classOf? cls with
     | none => err "no-class"
     | some E =>
-      ok (.arr (runOps (domOf (tableOf E.kind) kvs) (tableOf E.kind) E (propsOfJson kvs) nm0 ops.toList).toArray)
+      -- `{"names": [...]}`: several handles of the element, each with its cached name
+      let nms : Array Json := match nm0.getObjVal? "names" with
+        | .ok (.arr xs) => xs
+        | _ => #[nm0]
+      ok (.arr (runOps (domOf (tableOf E.kind) kvs) (tableOf E.kind) E (propsOfJson kvs) nms ops.toList).toArray)
   | .arr #[.str "elemc", .str cls, .obj kvs, .arr ops] =>
     match classOf? cls with
     | none => err "no-class"
     | some E =>
       let p := propsOfJson kvs
       let nm : Json := match kvs.get? "Name" with | some (.str s) => .arr #[.str "s", .str s] | _ => .null
-      ok (.arr (runOps (domOf (tableOf E.kind) kvs) (tableOf E.kind) E p nm ops.toList).toArray)
+      ok (.arr (runOps (domOf (tableOf E.kind) kvs) (tableOf E.kind) E p #[nm] ops.toList).toArray)
   | _ => err "bad-request"
 
 def main : IO Unit := run handle
